@@ -68,6 +68,16 @@ theorem wrong_block_root_rejected (p : Params) (s : State) (b : Block) (res : Ex
   have : ¬ treeRoot p (s.mem.blockTree ++ [s.mem.currHash]) = b.header.blockRoot := fun e => hr (by rw [hp]; exact e.symm)
   simp [submitBlock, submitGuards, h0, hp, this]
 
+/-- **The block root handed to a proposer is the one `submitBlock` checks**: `GetBlockRootWithPreBlockHashes` for the
+next height with predecessor `x` is the accumulator root over the previous-block hashes of all committed blocks plus
+`x`, a function of the accumulator and `x` alone (heights below 2^32, as uint32 in the code); a caller behind the
+ledger gets the empty hash. -/
+theorem root_query_is_checked_root (p : Params) (s : State) (x : Hash) (hlt : s.mem.currHeight + 1 < 4294967296) :
+    blockRootWithPre p s (s.mem.currHeight + 1) [x] = some (treeRoot p (s.mem.blockTree ++ [x])) ∧
+    (∀ start pre, 1 ≤ start + pre.length → start + pre.length - 1 < s.mem.currHeight →
+      blockRootWithPre p s start pre = some zeroHash) :=
+  ⟨blockRootWithPre_next p s x hlt, fun start pre h1 h2 => blockRootWithPre_behind p s start pre h1 h2 (by omega)⟩
+
 /-- **After a commit the block and its transactions are found**: by height (block store and header index), by hash,
 each transaction by its hash with the block's height; the tip is the block; state and block store agree. -/
 theorem lookup_after_commit (p : Params) (s s' : State) (b : Block) (root : Hash)
